@@ -164,6 +164,25 @@ def run(report, tier, seed):
     s.add('f_textcell_vs_textliteral_overridden', 'a: int, op: int', '0 <= op < 6', '''
         return ev('G' + str(op + 1)) == pyop(op, 'pear', 'apple') and ev('H' + str(op + 1)) == pyop(op, 'pear', 'kiwi')
     ''', encodes=fenc, requires='KF is not None')
+    # cells that hold numbers in the workbook, supplied with other kinds at run time: the emitted comparison must not depend on what the workbook stored
+    s.add('f_numcells_overridden_date_vs_midnight', 'd: int, op: int', '0 <= op < 6 and 27 <= d <= 29', '''
+        op, d = realize(op), realize(d)
+        a, b = datetime.date(2024, 2, d), datetime.datetime(2024, 2, d)
+        c = 'C' + str(op + 1)
+        return ev(c, A1=a, B1=b) == pyop(op, 0, 0) and ev(c, A1=b, B1=a) == pyop(op, 0, 0) and ev(c, A1=a, B1=a) == pyop(op, 0, 0)
+    ''', encodes=fenc, requires='KF is not None')
+    s.add('f_numcells_overridden_dates_ordered', 'd: int, e: int, op: int', '0 <= op < 6 and 1 <= d <= 3 and 1 <= e <= 3', '''
+        op, d, e = realize(op), realize(d), realize(e)
+        return ev('C' + str(op + 1), A1=datetime.date(2024, 3, d), B1=datetime.datetime(2024, 3, e, 0, 0)) == pyop(op, d, e)
+    ''', encodes=fenc, requires='KF is not None')
+    s.add('f_numcells_overridden_text', 'a: str, b: str, op: int', "0 <= op < 6 and len(a) <= 1 and len(b) <= 1 and all(c in 'aAb' for c in a + b)", '''
+        op = realize(op)
+        return ev('C' + str(op + 1), A1=a, B1=b) == pyop(op, a, b)
+    ''', encodes=fenc, requires='KF is not None', timeout=T * 2)
+    s.add('f_numcell_vs_literal_overridden_text', 'a: str, op: int', "0 <= op < 6 and 1 <= len(a) <= 2 and all(c in 'abAB' for c in a)", '''
+        lt, le, gt, ge, eq, ne = [ev('D' + str(k + 1), A1=a) for k in range(6)]
+        return (1 if lt else 0) + (1 if eq else 0) + (1 if gt else 0) == 1 and ne == (not eq) and le == (not gt) and ge == (not lt)
+    ''', encodes=fenc, requires='KF is not None', timeout=T * 2)
     s.add('f_literal_right', 'a: float, op: int', '0 <= op < 6 and fin(a)', '''
         return ev('D' + str(op + 1), A1=a) == pyop(op, a, 2.5)
     ''', encodes=fenc, requires='KF is not None')
